@@ -73,7 +73,10 @@ def np_sqrt(ex, args, kwargs, node, st):
         i, j = z3.Consts('sq_i!%d sq_j!%d' % (ex.qcount(), ex.qcount()), IntS)
         if o.shape is not None:
             new = fresh('npsqrt', arr2sort(Val))
-            st.assume(z3.ForAll([i, j], sel2(new, i, j) == vsqrt(sel2(o.arr, i, j)), patterns=[sel2(new, i, j)]))
+            pats = [sel2(new, i, j)]
+            if z3.is_const(o.arr):
+                pats.append(sel2(o.arr, i, j))       # either side of the definition triggers it
+            st.assume(z3.ForAll([i, j], sel2(new, i, j) == vsqrt(sel2(o.arr, i, j)), patterns=pats))
         else:
             new = fresh('npsqrt', z3.ArraySort(IntS, Val))
             st.assume(z3.ForAll([i], z3.Select(new, i) == vsqrt(z3.Select(o.arr, i)), patterns=[z3.Select(new, i)]))
@@ -506,3 +509,51 @@ def _np_quantile(ex, args, kwargs, node, st):
 
 
 LIB['np.quantile'] = _np_quantile
+
+
+def _arg_extreme(ex, args, node, st, which):
+    """np.argmin / np.argmax of a 1-D view: index of the first minimal (maximal) element (A3).  For a slice of a 2-D array the
+    defining facts are stated over the positions of the underlying array, which gives E-matching a natural trigger."""
+    q = ex.seq_of(args[0], st, node)
+    less = (lambda a, b: val_lt(a, b)) if which == 'min' else (lambda a, b: val_lt(b, a))
+    if q.items is not None and all(concrete(x) for x in q.items):
+        if not q.items:
+            ex.oblige('nonempty', False, st, node, 'arg%s of an empty sequence' % which)
+            raise PathEnd()
+        best = 0
+        for k, x in enumerate(q.items):
+            if (x < q.items[best]) if which == 'min' else (x > q.items[best]):
+                best = k
+        return best
+    n = zint(q.length)
+    ex.oblige('nonempty', n > 0, st, node, 'arg%s of an empty sequence raises ValueError' % which)
+    st.assume(n > 0)
+    if q.pos is not None:
+        at, lo, hi, start, step = q.pos
+        kp = fresh('arg%s_pos' % which, IntS)
+        p = z3.Const('am_p!%d' % ex.qcount(), IntS)
+        st.assume(z3.And(lo <= kp, kp < hi))
+        st.assume(z3.ForAll([p], z3.Implies(z3.And(lo <= p, p < hi), z3.Not(zbool(less(at(p), at(kp))))), patterns=[at(p)]))
+        earlier = z3.And(kp < p, p < hi) if step == -1 else z3.And(lo <= p, p < kp)
+        st.assume(z3.ForAll([p], z3.Implies(earlier, zbool(less(at(kp), at(p)))), patterns=[at(p)]))
+        return (kp - start) * step
+    k = fresh('arg%s' % which, IntS)
+    j = z3.Const('am_j!%d' % ex.qcount(), IntS)
+    st.assume(z3.And(0 <= k, k < n))
+    st.assume(z3.ForAll([j], z3.Implies(z3.And(0 <= j, j < n), z3.Not(zbool(less(q.get(j), q.get(k)))))))
+    st.assume(z3.ForAll([j], z3.Implies(z3.And(0 <= j, j < k), zbool(less(q.get(k), q.get(j))))))
+    return k
+
+
+@lib('argmin')
+def lib_argmin(ex, args, kwargs, node, st):
+    return _arg_extreme(ex, args, node, st, 'min')
+
+
+@lib('argmax')
+def lib_argmax(ex, args, kwargs, node, st):
+    return _arg_extreme(ex, args, node, st, 'max')
+
+
+LIB['np.argmin'] = lib_argmin
+LIB['np.argmax'] = lib_argmax
